@@ -2,7 +2,7 @@
    There is no general theorem for this controller (gap named in design/C08.md); the model is tied to the
    code by the correspondence of checks/C08.py. *)
 From Coq Require Import List ZArith Bool.
-From LJT Require Import model.Partial proofs.PartialSchedProofs.
+From LJT Require Import model.Partial proofs.PartialSchedSkip.
 Import ListNotations.
 Local Open Scope Z_scope.
 
